@@ -21,7 +21,8 @@ def glistObs (g : GList Nat) : String :=
   "ids=[" ++ joinWith "," (g.ids.map (showIdent natMarker)) ++ "]" ++
   " read=" ++ (match g.read with | some l => showNats l | none => "panic") ++
   " len=" ++ toString g.len ++ " empty=" ++ showBool g.isEmpty ++
-  " first=" ++ showOptIdent natMarker g.first ++ " last=" ++ showOptIdent natMarker g.last
+  " first=" ++ showOptIdent natMarker g.first ++ " last=" ++ showOptIdent natMarker g.last ++
+  " gets=[" ++ joinWith "," ((List.range (min g.len 12 + 1)).map (fun i => showOptIdent natMarker (g.get i))) ++ "]"
 
 /-- C13 (GList part): the read after a local edit is the old read with the element inserted at the position -/
 def glistGenSpec (g : GList Nat) (_ : Nat) (args : List String) : String :=
@@ -111,7 +112,11 @@ def listObs (s : ListCrdt Nat Nat) : String :=
   " fe=" ++ (match s.firstEntry with | some p => showIdent dotMarker p.1 | none => "-") ++
   " le=" ++ (match s.lastEntry with | some p => showIdent dotMarker p.1 | none => "-") ++
   " pe=" ++ showOptNat (s.lastEntry.bind (fun p => s.positionEntry p.1)) ++
-  " ge=" ++ showOptNat (s.firstEntry.bind (fun p => s.get p.1))
+  " ge=" ++ showOptNat (s.firstEntry.bind (fun p => s.get p.1)) ++
+  (let cap := min s.len 12
+   " posall=[" ++ joinWith "," ((List.range (cap + 1)).map (fun i => showOptNat (s.position i))) ++ "]" ++
+   " peall=[" ++ joinWith "," ((s.iterEntries.take cap).map (fun p => showOptNat (s.positionEntry p.1))) ++ "]" ++
+   " geall=[" ++ joinWith "," ((s.iterEntries.take cap).map (fun p => showOptNat (s.get p.1))) ++ "]")
 
 /-- C13 (List part): sequential-list reading of a local edit; claimed when every identifier is non-empty -/
 def listGenSpec (s : ListCrdt Nat Nat) (_ : Nat) (args : List String) : String :=
@@ -146,9 +151,12 @@ def listRawOps : CrdtOps (ListCrdt Nat Nat) (ListOp Nat Nat) where
   apply := ListCrdt.apply
   applyPanics := fun s op => (s.apply? op).isNone
   obs := listObs
-  validateOp := fun s op => match s.validateOp op with
-    | none => "panic"
-    | some r => showValidation r
+  validateOp := fun s op =>
+    (match s.validateOp op with
+     | none => "panic"
+     | some r => showValidation r) ++
+    -- the accessors on the op's identifier (live, deleted or not yet inserted): `position_entry`, `get`
+    " pid=" ++ showOptNat (s.positionEntry op.id) ++ " gid=" ++ showOptNat (s.get op.id)
   eq := some (fun a b => some (decide (a = b)))
   persist := some (persistWith (listCodec natS natC))
   persistOp := some (persistWith (listOpCodec natS natC))
